@@ -6,7 +6,20 @@ import Mochi.Lemmas.ScanMsgs
 `step s (.recv conn (.publish …))` runs `recvOn` → `receivePacket` → `publishValidate` → `processPublish` → (gates)
 → `publishToSubscribers`, then the release of a deferred message (`nextImmediate`) and the harness's barrier PINGREQ.
 This file proves that for an ACCEPTED publish the whole op is that one call, in an explicit state with an explicit
-message (`inboundMsg`, `retainedState`).
+message (`inboundMsg`, `retainedState`):
+
+* `processPublish_accepted_shape` (QoS 0), `processPublish_accepted_shape_record` (a non-PUBREC in-flight record under
+  the packet id is dropped first), `processPublish_accepted_shape_qos1` / `processPublish_accepted_qos1` (QoS 1: the
+  PUBACK first, then the same call in the same state — `pubackDone_pubackFiled`), `processPublish_inline_shape`;
+* `publishToSubscribers_q0_keep`: routing a message that is QoS 0 after shaping files nothing (in-flight records and
+  send quota of every object kept) — so `nextImmediate` after it sees the publisher's in-flight records of before;
+* `nextImmediate_none`, `nextImmediate_out`, `nextImmediate_after`: when and what a release writes;
+* `step_recv_publish_accepted`, `step_inlinePublish_accepted`: **the op is the call**;
+  `step_recv_publish_outputs`, `step_recv_publish_releases`: the op in general (with the release tail);
+* `subscribers_shared_retainMessage`, `retainedState_shared`, `retainedState_inv`, `entitledF03_retainedState`:
+  retaining the message changes neither "no shared subscription matches the topic", nor the invariants, nor who is
+  entitled — so everything can be stated in the state BEFORE the op.
+The delivery theorems built on these are in `Mochi/Props/C03.lean` (`recv_publish_delivery_exact`, …).
 -/
 namespace Mochi.Topics
 
@@ -1051,3 +1064,13 @@ theorem step_inlinePublish_accepted (s : Server) (topic payload : Str) (retain :
     processPublish_inline_shape s topic payload retain qos h, hn, List.append_nil]
 
 end Mochi.Broker
+
+#print axioms Mochi.Broker.processPublish_accepted_shape
+#print axioms Mochi.Broker.processPublish_accepted_shape_record
+#print axioms Mochi.Broker.processPublish_accepted_shape_qos1
+#print axioms Mochi.Broker.processPublish_accepted_qos1
+#print axioms Mochi.Broker.step_recv_publish_accepted
+#print axioms Mochi.Broker.step_recv_publish_outputs
+#print axioms Mochi.Broker.step_recv_publish_releases
+#print axioms Mochi.Broker.step_inlinePublish_accepted
+#print axioms Mochi.Topics.subscribers_shared_retainMessage
